@@ -85,6 +85,19 @@ CHECKS = {
         technique="TLA+ spec + TLC exhaustive enumeration of layouts, behaviour replay into real code with independent read-back",
         design_ref="DESIGN.md section 5 C12",
     ),
+    "C05": dict(
+        level="model_checking",
+        text=("Fragment.tla is a history machine over the Fragment API with the code's own bookkeeping (truns per track, write order, "
+              "next trun number, tfdt, mdat order, optimisation, box sizes, data offsets) and an ISO 8.8.7/8.8.8 read-back as Prop; "
+              "TLC checks Impl => Prop for every add-history (single and two-track, incl. tracks without samples) with and without "
+              "trun optimisation and exports the histories; each is replayed through six API variants, both encoders and two segment "
+              "shapes (extra emsg/prft/free/uuid/unknown boxes), decoded with an independently built init segment and read back both "
+              "by mp4ff (both decoders) and by the harness's independent ISO reader."),
+        note=("Trusted: TLC, Go replayer incl. its ISO reader. Sample field values come from 5 classes (equal/different dur, size, "
+              "flags, cto incl. negative, zero size); at most 7 adds per fragment, 2 tracks, 2 fragments."),
+        technique="TLA+ history spec + TLC exhaustive enumeration, behaviour replay into real code with independent read-back",
+        design_ref="DESIGN.md section 5 C05",
+    ),
 }
 
 PENDING_REASON = "check not built yet in this revision (planned in DESIGN.md section 5); not claimed until its machinery exists"
